@@ -419,6 +419,54 @@ def stress(item):
             for k, d, x in distinct], g0, len(res)
 
 
+def preempt(item):
+    """Preemption-bounded exploration at line granularity: call A runs under a line tracer restricted to the library; at every line
+    boundary of A (its very first, cold, execution in this process included) call B is run to completion - what a thread switch at that
+    point would do to state shared through modules and classes.  Every B result and A's result must be what the calls give on their
+    own.  (external instrumentation only: sys.settrace)"""
+    root = os.path.dirname(os.path.abspath(cvss.__file__))
+    (va, sa), (vb, sb) = [(v, unesc(s)) for v, s in item["a"] + item["b"]]
+
+    def call(v, s):
+        try:
+            if v == "text":
+                r_ = parse_cvss_from_text(s)
+                return dig(sorted([type(r).__name__, r.vector, r.clean_vector()] for r in r_)), "-"
+            obj = CLS[v](s)
+            return dig(observe(obj, v)), "-"
+        except Exception as e:  # noqa
+            return "raised", type(e).__name__
+    state = {"busy": False, "points": 0}
+    seen = set()
+
+    def tracer(frame, event, arg):
+        if state["busy"] or not frame.f_code.co_filename.startswith(root):
+            return None
+        if event == "line" and state["points"] < item.get("max_points", 4000):
+            state["busy"] = True
+            state["points"] += 1
+            try:
+                seen.add(call(vb, sb))
+            finally:
+                state["busy"] = False
+        return tracer
+    g0 = globals_digest()
+    cap = Capture()
+    old = sys.stdout, sys.stderr
+    sys.stdout = sys.stderr = cap
+    sys.settrace(tracer)
+    try:
+        ra = call(va, sa)
+    finally:
+        sys.settrace(None)
+        sys.stdout, sys.stderr = old
+    g1 = globals_digest()
+    lab = lambda v, s: "text::%s" % esc(s) if v == "text" else "new:%s:%s" % (v, esc(s))  # noqa
+    steps = [{"label": lab(va, sa), "res": ra[0], "exc": ra[1], "g": g1, "out": cap.n, "proj0": "-", "proj": "-"}]
+    steps += [{"label": lab(vb, sb), "res": r, "exc": x, "g": g1, "out": 0, "proj0": "-", "proj": "-"} for r, x in sorted(seen)]
+    return steps, g0, state["points"]
+
+
 def main():
     job = json.load(io.open(sys.argv[1], encoding="utf-8"))
     out = []
@@ -441,7 +489,13 @@ def main():
                 saved = (ctx.prec, ctx.rounding)
                 ctx.prec, ctx.rounding = it["prec"], getattr(decimal, it["rounding"])
                 ev["g0"] = globals_digest()
-            ev["steps"] = run_steps(it["steps"])
+            if it.get("handling"):          # the whole history runs while the caller is handling an exception
+                try:
+                    raise RuntimeError("the caller's own exception")
+                except RuntimeError:
+                    ev["steps"] = run_steps(it["steps"])
+            else:
+                ev["steps"] = run_steps(it["steps"])
             if kind == "config":
                 ev["ctx_after"] = [decimal.getcontext().prec, decimal.getcontext().rounding]
                 decimal.getcontext().prec, decimal.getcontext().rounding = saved
@@ -493,6 +547,8 @@ def main():
             ev["steps"], ev["g0"] = forced(it)
         elif kind == "stress":
             ev["steps"], ev["g0"], ev["constructions"] = stress(it)
+        elif kind == "preempt":
+            ev["steps"], ev["g0"], ev["points"] = preempt(it)
         ev["item"] = it
         out.append(ev)
     data = json.dumps(out, separators=(",", ":"), ensure_ascii=True)
